@@ -8,7 +8,7 @@ EXPLANATION = ('After every operation, for every instance: if it is pending/acti
                'duplicate, stale and reordered schedule/creating/started/complete/unschedule/deactivate messages.'
                + sc_.BMC_TEXT)
 
-ALPH = ['schedule', 'creating', 'started', 'complete', 'unschedule', 'deactivate', 'activate']
+ALPH = ['schedule', 'creating', 'started', 'complete', 'unschedule', 'deactivate', 'activate', 'cancel_group']
 DEEP = [
     ('schedule', 'complete', 'complete', 'unschedule'),
     ('schedule', 'unschedule', 'complete', 'deactivate'),
@@ -16,6 +16,8 @@ DEEP = [
     ('schedule', 'deactivate', 'complete', 'unschedule'),
     ('creating', 'deactivate', 'schedule', 'started', 'complete'),
     ('creating', 'unschedule', 'activate'),
+    ('cancel_group', 'schedule', 'unschedule'),       # attempt of a refused schedule_job (job cancelled meanwhile) is ended
+    ('cancel_group', 'schedule', 'complete', 'unschedule'),
 ]
 
 
